@@ -34,3 +34,11 @@ def register(check, TIERB_NOTE):
           "exactly one node holding the value in the leaf's Go type. Ill-typed payloads, unknown paths and missing keys are injected as failing operations.",
           "DESIGN.md §5 (Tier B, C10)", TIERB_NOTE,
           "deterministic simulation: seeded operation histories vs path->value reference model, failing-operation injection, ddmin-minimised replay")
+    check("C13", "exploration",
+          "Seeded search over histories of SetRequests and atomic Notifications generated model first (the generator fixes the effects - delete subtree, "
+          "replace = delete then write, update = write, ordered-list entries appended in arrival order - and encodes them with the harness's own scalar / "
+          "RFC 7951 encoders, optionally under a common prefix, with overlapping steps inside one request); the recorded effects are applied to a "
+          "path -> value reference model in gNMI order and compared (leaf set and ordered-list order) with the harness's walk of the tree after "
+          "UnmarshalSetRequest / UnmarshalNotifications. Requests with one undecodable update are injected as failing operations: they must be rejected.",
+          "DESIGN.md §5 (Tier B, C13)", TIERB_NOTE,
+          "deterministic simulation: seeded request histories vs gNMI reference model (model-first generation), failing-request injection, ddmin-minimised replay")
